@@ -273,9 +273,49 @@ def corpus(profile, geom, n, seed, cfgs=None, prefix="r", safe_first=False, leng
         if profile == "oreclaim":
             out.append(oreclaim_behaviour(r, geom, "%s%d" % (prefix, i), cfg))
             continue
+        if profile == "latep":
+            out.append(late_persister_behaviour(r, geom, "%s%d" % (prefix, i), cfg))
+            continue
         out.append(gen_behaviour(r, profile, geom, "%s%d" % (prefix, i), cfg, safe_first=safe_first,
                                  length=(r.randint(*length) if length else None)))
     return out
+
+
+def late_persister_behaviour(r, geom, bid, cfg):
+    """Scenario family for C17: the marker persister thread of an instance is held (cfg gate
+    `tc_before_persist`) after it took its snapshot, the instance is shut down cleanly, a successor
+    instance changes the marker and is shut down cleanly, then the old persister runs: the state
+    reported after the next reopen must be the successor's."""
+    ids = IdGen()
+    t = r.choice(["a", "b"])
+    ops = [{"op": "append", "t": t, "id": ids.next(), "size": r.choice([8, 100, 300])}]
+    if r.random() < 0.5:
+        ops.append({"op": "sleep", "ms": r.choice([1, 10, 25])})
+    first_clean = r.random() < 0.7
+    if not first_clean:
+        ops.append({"op": "mark", "t": t, "v": True})
+        ops.append({"op": "sleep", "ms": 12})
+    ops.append({"op": "hold_persister"})
+    ops.append({"op": "mark", "t": t, "v": first_clean})            # state change -> persister wakes and is held
+    ops.append({"op": "await_persister", "ms": 300})
+    ops.append({"op": "reopen", "i": 0, "proc": "same", "ro": True, "delay_ms": r.choice([0, 0, 1])})
+    # successor: change the marker the other way (an append makes it dirty, a mark sets it)
+    if first_clean:
+        ops.append(r.choice([{"op": "append", "t": t, "id": ids.next(), "size": r.choice([8, 100, 500])},
+                             {"op": "mark", "t": t, "v": False}]))
+    else:
+        ops.append({"op": "mark", "t": t, "v": True})
+    if r.random() < 0.5:
+        ops.append({"op": "is_clean", "t": t})
+    ops.append({"op": "reopen", "i": 0, "proc": "same", "ro": True, "delay_ms": r.choice([0, 1, 20]), "release_persister": True})
+    ops.append({"op": "is_clean", "t": t})
+    ops.append({"op": "release_persister"})
+    for _ in range(2):
+        ops.append({"op": "bread", "t": t, "budget": -1, "ckpt": True, "off": -1})
+    ops.append({"op": "is_clean", "t": t})
+    c = dict(cfg)
+    c["topics"] = ["a", "b"]
+    return {"id": bid, "cfg": c, "ops": ops}
 
 
 def oreclaim_behaviour(r, geom, bid, cfg):
